@@ -85,6 +85,30 @@ def _worker(task):
         return {"crash": traceback.format_exc(limit=10), "task": repr(task)[:300]}
 
 
+def scan_assumptions(modules):
+    """mechanical scan, on every run, of what the proofs of this property assume rather than prove: every `assume(`
+    in the contract modules of the property and in the environment models (pre-state constraints of contract families,
+    facts of assumed environment contracts, axioms such as the CRC recursion instances), every loop cut, stub and callee
+    contract.  -> {file: [line numbers]} plus counts"""
+    import re
+    files = [os.path.join(VERIF, m.replace(".", os.sep) + ".py") for m in modules]
+    files += sorted(os.path.join(VERIF, "env", f) for f in os.listdir(os.path.join(VERIF, "env")) if f.endswith(".py"))
+    out = {"assume": {}, "loop_cuts": {}, "fn_summaries": {}, "stubs": {}}
+    pats = {"assume": re.compile(r"\bassume\("), "loop_cuts": re.compile(r"\bloop_cuts\s*="), "fn_summaries": re.compile(r"\bfn_summaries\s*="),
+            "stubs": re.compile(r"def stubs\(")}
+    for f in files:
+        try:
+            lines = open(f).read().splitlines()
+        except OSError:
+            continue
+        for k, pat in pats.items():
+            hits = [i + 1 for i, l in enumerate(lines) if pat.search(l) and not l.lstrip().startswith("#")]
+            if hits:
+                out[k][os.path.relpath(f, VERIF)] = hits
+    out["counts"] = {k: sum(len(v) for v in out[k].values()) for k in pats}
+    return out
+
+
 def load_known():
     p = os.path.join(VERIF, "known_findings.json")
     if not os.path.exists(p):
@@ -344,6 +368,7 @@ def report(args, P, results, known, seed, t0):
                         "premises": l.get("premises")} for l in lemma_res],
             "bounded": bounded_summary,
             "assumed_contracts": P.get("assumed", []),
+            "assumption_sites": scan_assumptions(P["modules"]),
             "known_findings": [k["what"] for k in known if k["contract"] in P["contracts"]],
             "not_decided": P.get("not_decided", []),
             "undecided": [list(u) for u in undecided][:20],
